@@ -467,6 +467,9 @@ func (c *client) executeReadLoop(cborReader *cbor.Decoder) {
 	// The message is generic, so we must find the type and decode the full message next.
 	var runtimeMessage DecodedRuntimeMessage
 	for {
+		// Start from an empty decode target for every message: fields missing from a message
+		// must not keep the values of the previous one.
+		runtimeMessage = DecodedRuntimeMessage{}
 		if err := cborReader.Decode(&runtimeMessage); err != nil {
 			c.logger.Errorf(
 				"ATP client for steps '%s' failed to read or decode runtime message: %v",
